@@ -813,6 +813,9 @@ func caseClasses(c *Case, res *runResult, st *stats) []string {
 	if c.DefHelper {
 		add("config-host-default:cred-helper")
 	}
+	if c.CfgVia != "" {
+		add("config-hosts-via:" + c.CfgVia)
+	}
 	if c.DockerEnv {
 		add("docker-config:via-env-DOCKER_CONFIG")
 	}
